@@ -131,6 +131,24 @@ func ParamList(r *core.Rand, o PLOpts) *PList {
 			it.Name = RandCase(r, knownURIParams[i])
 		} else if r.Intn(3) == 0 || (manyKnown && r.Intn(2) == 0) {
 			it.Name = RandCase(r, knownURIParams[r.Intn(len(knownURIParams))])
+		} else if r.Intn(6) == 0 {
+			// near misses of the known names: a known name stretched or cut by a few bytes
+			k := knownURIParams[r.Intn(len(knownURIParams))]
+			switch r.Intn(4) {
+			case 0:
+				it.Name = k + b.token(1, 6, "sx1-.")
+			case 1:
+				it.Name = k + "-" + b.token(1, 12, "proxyabc")
+			case 2:
+				if len(k) > 1 {
+					it.Name = k[:len(k)-1]
+				} else {
+					it.Name = k + k
+				}
+			default:
+				it.Name = b.token(1, 2, "xu-") + k
+			}
+			it.Name = RandCase(r, it.Name)
 		} else {
 			it.Name = b.token(1, 8, chars)
 		}
